@@ -8,6 +8,7 @@ import (
 	"os/exec"
 	"path/filepath"
 	"regexp"
+	"runtime"
 	"sort"
 	"strings"
 	"sync/atomic"
@@ -26,6 +27,9 @@ type ChildOpts struct {
 	Args    []string
 	Timeout time.Duration // generous wall-clock watchdog; firing = inconclusive
 	Env     []string
+	// CrashIsViolation: a Go panic or fatal error that kills the child is a violation of the
+	// property (used where the property itself forbids panics), otherwise it is inconclusive.
+	CrashIsViolation bool
 }
 
 // ChildOutcome is what the parent learned from outside the child.
@@ -152,6 +156,14 @@ func Judge(r *ev.Run, o ChildOpts, oc ChildOutcome, caseID string) {
 		return
 	}
 	if oc.ExitCode != 0 {
+		if o.CrashIsViolation && (strings.Contains(oc.Output, "panic:") || strings.Contains(oc.Output, "fatal error:")) {
+			i := strings.Index(oc.Output, "panic:")
+			if i < 0 {
+				i = strings.Index(oc.Output, "fatal error:")
+			}
+			r.Violate(ev.Violation{Case: caseID, Class: "process-crash", Msg: "the workload process died: " + firstLines(oc.Output[i:], 12), Witness: map[string]any{"args": o.Args, "output": tail(oc.Output[i:], 3000)}})
+			return
+		}
 		r.Inconclusive(fmt.Sprintf("%s: child %v exited with %d; output tail: %s", caseID, o.Args, oc.ExitCode, tail(oc.Output, 1500)))
 	}
 }
@@ -169,4 +181,124 @@ func tail(s string, n int) string {
 		return s[len(s)-n:]
 	}
 	return s
+}
+
+// RunRaw runs a command under a wall-clock watchdog and reports how it ended.
+func RunRaw(bin string, args []string, timeout time.Duration) ChildOutcome {
+	cmd := exec.Command(bin, args...)
+	cmd.Stdout, cmd.Stderr = nil, nil
+	oc := ChildOutcome{}
+	if err := cmd.Start(); err != nil {
+		oc.ExitCode = -1
+		return oc
+	}
+	done := make(chan error, 1)
+	go func() { done <- cmd.Wait() }()
+	var err error
+	select {
+	case err = <-done:
+	case <-time.After(timeout):
+		_ = cmd.Process.Kill()
+		<-done
+		oc.TimedOut = true
+		oc.ExitCode = -1
+		return oc
+	}
+	if err != nil {
+		if ee, ok := err.(*exec.ExitError); ok {
+			oc.ExitCode = ee.ExitCode()
+			if ws, ok := ee.Sys().(syscall.WaitStatus); ok && ws.Signaled() {
+				oc.Signaled = true
+			}
+		} else {
+			oc.ExitCode = -1
+		}
+	}
+	return oc
+}
+
+// Stacks returns a dump of all goroutines.
+func Stacks() string {
+	buf := make([]byte, 8<<20)
+	return string(buf[:runtime.Stack(buf, true)])
+}
+
+// Quiescent reports whether, in two goroutine dumps taken some time apart, every
+// goroutine whose stack mentions one of the markers is blocked (not running, runnable,
+// in a syscall or sleeping) with an identical stack. Callers use it only when no
+// harness-controlled event is pending (the harness itself is blocked or has stopped
+// producing ticks), so a goroutine waiting in a select cannot be served either. Only
+// then can nothing that exists unblock them, whatever the machine load.
+func Quiescent(a, b string, markers ...string) bool {
+	pick := func(s string) []string {
+		var out []string
+		for _, g := range strings.Split(s, "\n\n") {
+			for _, m := range markers {
+				if strings.Contains(g, m) {
+					out = append(out, g)
+					break
+				}
+			}
+		}
+		return out
+	}
+	ga, gb := pick(a), pick(b)
+	if len(ga) == 0 || len(ga) != len(gb) {
+		return false
+	}
+	body := func(g string) string {
+		if i := strings.IndexByte(g, '\n'); i >= 0 {
+			return g[i:]
+		}
+		return g
+	}
+	for i := range ga {
+		head := strings.SplitN(ga[i], "\n", 2)[0]
+		for _, st := range []string{"[running", "[runnable", "[syscall", "[sleep", "[IO wait", "[GC "} {
+			if strings.Contains(head, st) {
+				return false
+			}
+		}
+		if body(ga[i]) != body(gb[i]) {
+			return false
+		}
+	}
+	return true
+}
+
+// Hang is the verdict of Watch.
+type Hang struct {
+	Panicked string
+	Hung     bool // the function did not return within the watchdog
+	Dead     bool // and the marked goroutines are quiescent: nothing can unblock them
+	Dump     string
+}
+
+// Watch runs f in its own goroutine. If f does not return within limit, two goroutine dumps
+// decide between a deadlock (Dead) and a merely slow run (inconclusive for the caller).
+func Watch(limit time.Duration, f func(), markers ...string) Hang {
+	done := make(chan string, 1)
+	go func() {
+		defer func() {
+			if x := recover(); x != nil {
+				done <- fmt.Sprint("panic: ", x)
+				return
+			}
+			done <- ""
+		}()
+		f()
+	}()
+	select {
+	case p := <-done:
+		return Hang{Panicked: p}
+	case <-time.After(limit):
+	}
+	d1 := Stacks()
+	select {
+	case p := <-done:
+		return Hang{Panicked: p}
+	case <-time.After(1500 * time.Millisecond):
+	}
+	d2 := Stacks()
+	return Hang{Hung: true, Dead: Quiescent(d1, d2, markers...), Dump: tail(d2, 6000)}
 }
